@@ -13,4 +13,4 @@ ASSUMPTIONS = ['invariant checker and reference model in vf/graph.py are correct
 
 
 def streams(tier):
-    return hist_streams('C01', 'general', 2400, 60000)
+    return hist_streams('C01', 'general', 8000, 80000)
